@@ -269,7 +269,7 @@ class C02(Prop):
     explanation = "every emitted line is checked against the pinned Ducky grammar (legal_output) on the implementation's own output"
 
     ARGS = ["", "a", "ab", "é", "😀", "esc", "ESC", "Esc", "F1", "f12", "F13", "TAB", "-1", "0", "7", "99999999999999999999", "1.5", "2.0", "TRUE", "FALSE", '"a"', '"5"',
-            "12345", "1234", "0007", "²", "٣", "1 2", " ", "x y"]
+            "12345", "1234", "0007", "00065", "00000000", "09999", "10000", "²", "٣", "1 2", " ", "x y"]
     CMDS = ["ALT", "CTRL", "CONTROL", "SHIFT", "GUI", "WINDOWS", "META", "DELAY", "DEFAULT_DELAY", "DEFAULTDELAY", "ALTCHAR", "SYSRQ", "CTRL-ALT", "GUI-SHIFT",
             "MENU", "UP", "DOWNARROW", "ENTER", "CAPSLOCK", "TAB", "WHITESPACE"]
 
